@@ -122,8 +122,47 @@ GBlocks(s) ==
         d == IF nx = -1 THEN 1 ELSE nx - s.h
     IN {[E0 EXCEPT !.kind = "Blocks", !.n = n] : n \in {x \in {1, d, d + 1, d + 2} : x >= 1 /\ x <= 12000}}
 
+\* ---------------------------------------------------------------- further exhaustive families
+\* did: every submitter x account x sid x proof shape; key rotations over all partitions of the bound accounts
+DidAccs == <<"a04", "a05", "a06">>
+Sids == <<"s1", "s2">>
+DidEvents(s) ==
+    {[E0 EXCEPT !.kind = "Binding", !.creator = c, !.acc = a, !.did = d, !.amount = t, !.sigmode = m] :
+        c \in Rng(DidAccs), a \in Rng(DidAccs), d \in Rng(Sids), t \in {0, -901}, m \in {"ok", "replay"}}
+    \cup UNION {LET bound == SelectSeq(DidAccs, LAMBDA a : BoundDid(s, a) = d) IN
+               {[E0 EXCEPT !.kind = "DidUpdate", !.creator = c, !.did = d, !.tx = SetToSortSeq(rm, LAMBDA x, y : IndexOf(DidAccs, x) < IndexOf(DidAccs, y)),
+                           !.datas = SelectSeq(bound, LAMBDA a : a \notin rm)] : c \in Rng(DidAccs), rm \in (SUBSET Rng(bound)) \ {{}}}
+               : d \in Rng(Sids)}
+    \cup {[E0 EXCEPT !.kind = "PayAddrSid", !.creator = c, !.acc = a, !.did = d] : c \in Rng(DidAccs), a \in Rng(DidAccs), d \in Rng(Sids)}
+    \cup {[E0 EXCEPT !.kind = "PayAddr", !.creator = c, !.acc = a, !.did = "d2"] : c \in {"a04", "a05"}, a \in {"a04", "a05"}}
+
+\* super: node a02 around the share threshold, third parties a04/a07, failing delegations, resets, capacity changes
+SuperEvents(s) ==
+    {[E0 EXCEPT !.kind = "Delegate", !.creator = d, !.val = "v1", !.amount = m] : d \in {"a02", "a04", "a07"}, m \in {10, 250000, 500000, 200000000}}
+    \cup {[E0 EXCEPT !.kind = "Undelegate", !.creator = x.d, !.val = x.v, !.amount = m] :
+            x \in {y \in Rng(s.delegs) : y.d # "vo1"}, m \in {x2 \in {10, 250000, 500000} : TRUE}}
+    \cup {[E0 EXCEPT !.kind = "Reset", !.creator = "a02", !.status = sx, !.val = v] : sx \in {15, 13}, v \in {"", "v1"}}
+    \cup {[E0 EXCEPT !.kind = "AddVstorage", !.creator = "a02", !.size = 1000000],
+          [E0 EXCEPT !.kind = "RemoveVstorage", !.creator = "a02", !.size = 1000000]}
+
+\* reward: capacity changes and claims between minting blocks
+RewardEvents(s) ==
+    {[E0 EXCEPT !.kind = k, !.creator = a, !.size = 1000000] : k \in {"AddVstorage", "RemoveVstorage"}, a \in {"a01", "a02"}}
+    \cup {[E0 EXCEPT !.kind = "Claim", !.creator = a] : a \in {"a01", "a02", "a03"}}
+    \cup {[E0 EXCEPT !.kind = "Blocks", !.n = n] : n \in {1, 3}}
+
+\* auth: one model of d1; every request kind by both DIDs through the gateway, its hot key, a stranger and a node that
+\* declared the stranger's address; adversarial commit shapes
+AuthEvents(s) ==
+    GStoreNew(s) \cup GStoreUpd(s) \cup GCompletes(s) \cup GCancels(s) \cup GSigned(s)
+    \cup {[E0 EXCEPT !.kind = "Blocks", !.n = 1]}
+
 Events(s) ==
-    CASE Family = "gen" -> GStoreNew(s) \cup GStoreUpd(s) \cup GCompletes(s) \cup GCancels(s) \cup GSigned(s)
+    CASE Family = "did"    -> DidEvents(s)
+      [] Family = "super"  -> SuperEvents(s)
+      [] Family = "reward" -> RewardEvents(s)
+      [] Family = "auth"   -> AuthEvents(s)
+      [] Family = "gen" -> GStoreNew(s) \cup GStoreUpd(s) \cup GCompletes(s) \cup GCancels(s) \cup GSigned(s)
                            \cup Migrates(s) \cup Claims(s) \cup GBlocks(s)
       [] Family = "pay" -> StoreNew(s) \cup StoreUpd(s) \cup Completes(s) \cup Cancels(s) \cup Terminates(s) \cup Renews(s)
                            \cup Migrates(s) \cup Claims(s) \cup BlocksEv(s)
